@@ -42,11 +42,11 @@ def candidates(m):
     return out
 
 
-def class_blocks(text):
+def class_blocks(text, start=r'py::class_<'):
     """py::class_ statements: from `py::class_<` to the `;` that ends the statement (brackets and string literals
     respected), so that the white space the generator puts between statements is not part of a block"""
     out = []
-    for m in re.finditer(r'py::class_<', text):
+    for m in re.finditer(start, text):
         i, depth, n = m.start(), 0, len(text)
         j = i
         while j < n:
@@ -168,6 +168,173 @@ def case(idx, payload):
                     res["bad"] = dict(kind="spec", what="MATLAB: deleting class %s changes the generated file %s of another entity" % (key, fn),
                                       input=text, input_deleted=text_del, **streams.first_diff(norm(mfull[1][fn]), norm(body)))
                     return res
+            fr = set(matlab_routines(mfull[1]))
+            for rname, rbody in matlab_routines(mb[1]):
+                if (rname, rbody) not in fr:
+                    res["bad"] = dict(kind="spec", what="MATLAB: deleting class %s changes the gateway routine %s of another entity" % (key, rname),
+                                      input=text, input_deleted=text_del, changed_routine=rbody[:500])
+                    return res
+    return res
+
+
+def matlab_routines(files, module="m"):
+    """gateway routines of the MEX source as (name without its id, body)"""
+    cpp = files.get(module + "_wrapper.cpp", "")
+    return [(re.sub(r'_\d+$', '', m.group(1)), m.group(2)) for m in
+            re.finditer(r'^void (\w+)\(int nargout, mxArray \*out\[\], int nargin, const mxArray \*in\[\]\)\n\{(.*?)^\}', cpp, re.M | re.S)
+            if m.group(1) != "mexFunction" and not m.group(1).startswith("_")]
+
+
+def others_unchanged(full_py, del_py, full_ml, del_ml, what, d):
+    """every entity of the reduced input is generated exactly as in the full input (pybind: class statements; MATLAB: .m
+    files up to the renumbered gateway ids, and gateway routines)"""
+    if full_py[0] == "ok" and del_py[0] == "ok":
+        fb = set(class_blocks(full_py[1]))
+        for blk in class_blocks(del_py[1]):
+            if blk not in fb:
+                return dict(kind="spec", what="pybind: %s changes the binding of another class" % what, changed_block=blk[:400], **d)
+        fdefs = set(class_blocks(full_py[1], r'\bm_\w*\.def\('))
+        for l in class_blocks(del_py[1], r'\bm_\w*\.def\('):
+            if l not in fdefs:
+                return dict(kind="spec", what="pybind: %s changes the binding of another function" % what, changed_block=l[:400], **d)
+    if full_ml[0] == "ok" and del_ml[0] == "ok":
+        norm = lambda t: re.sub(r"m_wrapper\(\d+", "m_wrapper(#", t)   # noqa: E731
+        for fn, body in del_ml[1].items():
+            if fn.endswith(".m") and fn in full_ml[1] and norm(body) != norm(full_ml[1][fn]):
+                return dict(kind="spec", what="MATLAB: %s changes the generated file %s of another entity" % (what, fn),
+                            **dict(d, **streams.first_diff(norm(full_ml[1][fn]), norm(body))))
+        fr = set(matlab_routines(full_ml[1]))
+        for name, body in matlab_routines(del_ml[1]):
+            if (name, body) not in fr:
+                return dict(kind="spec", what="MATLAB: %s changes the gateway routine %s of another entity" % (what, name),
+                            changed_routine=body[:500], **d)
+    elif full_ml[0] == "ok" and del_ml[0] != "ok":
+        return dict(kind="spec", what="MATLAB: %s makes the generation fail (%s)" % (what, del_ml[1]), **d)
+    return None
+
+
+def same_ns_enum_case(idx, payload):
+    """two DIFFERENT namespaces with the same simple name (x::util, y::util, or a re-opened block); a class in the later one
+    uses an enumeration of its own namespace; deleting / ignoring an unrelated class of the earlier one changes nothing else"""
+    seed, _ = payload
+    rng = random.Random(seed * 1000003 + idx + 616161)
+    inner = rng.choice(["util", "detail", "types"])
+    o1, o2 = rng.sample(["x", "y", "zeta", "core"], 2)
+    en = rng.choice(["Kind", "Mode", "Level"])
+    q2 = "%s::%s" % (o2, inner)
+    first_mem = rng.sample(["First();", "First(int n);", "void set(int a);", "double value() const;", "int count;", "static int Count(double x);"], rng.randint(1, 4))
+    first_enum = "enum %s { P, Q };" % rng.choice([en, "Other"]) if rng.random() < 0.3 else ""
+    sec = ["Second();"] + rng.sample(["Second(%s::%s k);" % (q2, en), "void set%s(%s::%s k);" % (en, q2, en), "%s::%s get%s() const;" % (q2, en, en),
+                                      "%s::%s current;" % (q2, en), "static %s::%s Default();" % (q2, en), "double scale(double s) const;"], rng.randint(2, 5))
+    blk1 = "namespace %s { namespace %s { %s class First { %s }; } }" % (o1, inner, first_enum, " ".join(first_mem))
+    blk1_del = "namespace %s { namespace %s { %s } }" % (o1, inner, first_enum)
+    blk2 = "namespace %s { namespace %s { enum %s { A, B, C }; class Second { %s }; } }" % (o2, inner, en, " ".join(sec))
+    text, text_del = blk1 + "\n" + blk2 + "\n", blk1_del + "\n" + blk2 + "\n"
+    res = dict(idx=idx, text=text, bad=None, kinds=["same_ns_enum"])
+    key = "%s::%s::First" % (o1, inner)
+    full_py, del_py = impl_pybind(text, streams.TPL_MIN, "m", [''], False, [], None), impl_pybind(text_del, streams.TPL_MIN, "m", [''], False, [], None)
+    ign_py = impl_pybind(text, streams.TPL_MIN, "m", [''], False, [key], None)
+    full_ml, del_ml = impl_matlab([text], "m", [], False), impl_matlab([text_del], "m", [], False)
+    ign_ml = impl_matlab([text], "m", [key], False)
+    d = dict(input=text, input_deleted=text_del)
+    if ign_py != del_py:
+        res["bad"] = dict(kind="spec", what="pybind: ignoring class %s is not equivalent to deleting its declaration" % key, ignore=[key], **d)
+    elif ign_ml != del_ml:
+        from props._matlab_common import files_diff
+        dd = files_diff(del_ml[1], ign_ml[1]) if ign_ml[0] == del_ml[0] == "ok" else dict(expected=str(del_ml)[:200], got=str(ign_ml)[:200])
+        res["bad"] = dict(kind="spec", what="MATLAB: ignoring class %s is not equivalent to deleting its declaration" % key, ignore=[key], **dict(d, **dd))
+    else:
+        res["bad"] = others_unchanged(full_py, del_py, full_ml, del_ml, "deleting class %s" % key, d)
+    return res
+
+
+def unrelated_decl_case(idx, payload):
+    """deleting an unrelated declaration that is NOT a class — a free function, an enumeration, a variable that nothing else
+    mentions — leaves every other entity's generated code as it was (both generators)"""
+    import gen
+    seed, _ = payload
+    rng = random.Random(seed * 1000003 + idx + 717171)
+    g = gen.Gen(rng, gen.Cfg(max_decls=4, max_members=4, max_depth=2, matlab_safe=True, typedef_same_ns=True, unique_ns=True, p_template=0.2,
+                             extra_kinds=['func', 'func', 'cls', 'ns', 'enum', 'var'], mnames=["print", "f", "g", "update", "print"]))
+    m = gen.gen_module_inst(g)
+    text = gen.layout(rng, gen.lexemes(m), 'space')
+    res = dict(idx=idx, text=text, bad=None, kinds=[])
+    words = {}
+    for path, content in gen.walk_namespaces(m):
+        for d_ in content:
+            for k, t in gen.lx_decl(d_) if d_.kind != 'ns' else []:
+                if k == 'word':
+                    words.setdefault(t, set()).add(id(d_))
+    cands = []
+    for path, content in gen.walk_namespaces(m):
+        for i, d_ in enumerate(content):
+            if d_.kind not in ('func', 'enum', 'var'):
+                continue
+            nm = {'func': lambda: d_.name, 'enum': lambda: d_.enum.name, 'var': lambda: d_.var.name}[d_.kind]()
+            if len(words.get(nm, ())) == 1:
+                cands.append((path, i, d_.kind, nm))
+    if not cands:
+        return res
+    path, i, kind, nm = rng.choice(cands)
+    m2 = copy.deepcopy(m)
+    for p2, content2 in gen.walk_namespaces(m2):
+        if p2 == path:
+            del content2[i]
+            break
+    text_del = gen.layout(random.Random(1), gen.lexemes(m2), 'space')
+    res["kinds"].append("unrelated_" + kind)
+    full_py, del_py = impl_pybind(text, streams.TPL_MIN, "m", [''], True, [], None), impl_pybind(text_del, streams.TPL_MIN, "m", [''], True, [], None)
+    full_ml, del_ml = impl_matlab([text], "m", [], True), impl_matlab([text_del], "m", [], True)
+    res["bad"] = others_unchanged(full_py, del_py, full_ml, del_ml, "deleting the %s %s" % ({'func': 'free function', 'enum': 'enumeration', 'var': 'variable'}[kind],
+                                  "::".join(list(path) + [nm])), dict(input=text, input_deleted=text_del))
+    return res
+
+
+def special_names_case(idx, payload):
+    """classes whose members have names the generators treat specially (print, serialize, Python keywords) next to free
+    functions and namespaces in every order and nesting: deleting ONE free function (or one namespace holding only free
+    functions) changes no other entity"""
+    seed, _ = payload
+    rng = random.Random(seed * 1000003 + idx + 818181)
+    special = ["print", "print", "lambda", "def", "serialize", "from", "is", "update", "print_"]
+
+    def cls(nm):
+        mem = ["%s();" % nm]
+        for sp in rng.sample(special, rng.randint(1, 3)):
+            mem.append({"serialize": "void serialize() const;", "print": rng.choice(["void print() const;", "void print(string s) const;", "static void print(int n);"])}
+                       .get(sp, "double %s(double x) const;" % sp))
+        return "class %s { %s };" % (nm, " ".join(mem))
+
+    def fn(nm):
+        return rng.choice(["double %s(double x);", "void %s();", "int %s(int a, int b = 2);"]) % nm
+    fnames = rng.sample(["scale", "helper", "compute", "print", "lambda", "norm2", "reset"], rng.randint(2, 4))
+    items = [("cls", cls(n)) for n in rng.sample(["Report", "Log", "Table", "View"], rng.randint(1, 3))]
+    items += [("fn", fn(n), n) for n in fnames]
+    rng.shuffle(items)
+    # some of the items go into (possibly nested) namespaces
+    out, victims = [], []
+    k = 0
+    while k < len(items):
+        take = rng.randint(1, 2)
+        grp = items[k:k + take]
+        k += take
+        ns = rng.choice([None, None, "tools", "io", "tools::deep"])
+        if ns and ns in [o[0] for o in out]:
+            ns = None
+        out.append((ns, grp))
+    def render(skip):
+        parts = []
+        for ns, grp in out:
+            body = " ".join(it[1] for it in grp if it is not skip)
+            parts.append((" ".join("namespace %s {" % x for x in ns.split("::")) + " " + body + " " + "}" * len(ns.split("::"))) if ns else body)
+        return "\n".join(parts) + "\n"
+    fns = [it for _, grp in out for it in grp if it[0] == "fn"]
+    victim = rng.choice(fns)
+    text, text_del = render(None), render(victim)
+    res = dict(idx=idx, text=text, bad=None, kinds=["special_names"])
+    full_py, del_py = impl_pybind(text, streams.TPL_MIN, "m", [''], True, [], None), impl_pybind(text_del, streams.TPL_MIN, "m", [''], True, [], None)
+    full_ml, del_ml = impl_matlab([text], "m", [], True), impl_matlab([text_del], "m", [], True)
+    res["bad"] = others_unchanged(full_py, del_py, full_ml, del_ml, "deleting the free function %s" % victim[2], dict(input=text, input_deleted=text_del))
     return res
 
 
@@ -262,6 +429,9 @@ def run(ctx, n, off=0, collect=True):
     results = list(fw.run_cases(case, [(ctx.seed + off, None)] * n + [(ctx.seed + off + 7, same_names)] * (n // 2)
                                 + [(ctx.seed + off + 9, serial)] * (n // 3)))
     results += list(fw.run_cases(multi_inst_case, [(ctx.seed + off, None)] * (n // 4)))
+    results += list(fw.run_cases(same_ns_enum_case, [(ctx.seed + off, None)] * (n // 8)))
+    results += list(fw.run_cases(unrelated_decl_case, [(ctx.seed + off, None)] * (n // 3)))
+    results += list(fw.run_cases(special_names_case, [(ctx.seed + off, None)] * (n // 4)))
     for r in results:
         if "crash" in r:
             raise RuntimeError(r["crash"])
